@@ -32,6 +32,13 @@ Definition unique_wires (s : state) : Prop :=
   (forall p n w, p < nobj s -> In (n, w) (owires s p) ->
       w < nwire s /\ wparent s w = p /\ wname s w = n).
 
+(* the sinks of a wire are exactly the in / inout ports of primitive blocks attached to it, in creation order
+   ("sinks are registered only for primitive leaves") *)
+Definition reader_b (s : state) (w q : nat) : bool :=
+  Nat.eqb (pwire s q) w && oprim s (pparent s q) && reads (pkind s q).
+Definition sinks_exact (s : state) : Prop :=
+  forall w, w < nwire s -> wsinks s w = filter (reader_b s w) (seq 0 (nport s)).
+
 (* every created wire is in its parent's table under its own name *)
 Definition registered (s : state) (w : nat) : Prop := tget (owires s (wparent s w)) (wname s w) = Some w.
 Definition all_registered (s : state) : Prop := forall w, w < nwire s -> registered s w.
@@ -105,9 +112,6 @@ Definition single_driver_b (s : state) : bool :=
                             (match wsource s w with Some q => [q] | None => [] end))
           (seq 0 (nwire s)).
 
-(* the sinks of a wire are exactly the in / inout ports of primitive blocks attached to it, in creation order *)
-Definition reader_b (s : state) (w q : nat) : bool :=
-  Nat.eqb (pwire s q) w && oprim s (pparent s q) && reads (pkind s q).
 Definition sinks_exact_b (s : state) : bool :=
   forallb (fun w => list_eqb Nat.eqb (wsinks s w) (filter (reader_b s w) (seq 0 (nport s)))) (seq 0 (nwire s)).
 
